@@ -186,7 +186,7 @@ def main():
     c.assumptions = ["amplitudes are multiples of 1/4; real build", "documented operators transcribed from LatticePresets.h"]
     # call histories of the documented workflow with every object constructed up front (spec/Workflow.tla)
     import workflow
-    workflow.attach(c, {"HS"}, 'index Hamiltonian')
+    workflow.attach(c, {"HS", "HP"}, 'index Hamiltonian / block matrices of a Hamiltonian part')
     c.finish()
 
 
